@@ -133,7 +133,7 @@ VIOLATION_BUDGET = {"left": 4}
 UNKNOWN_BUDGET = {"left": 6}  # once a case is undecided anyway, do not spend solver time on every further open obligation
 
 
-def discharge(hyp, goal, timeout_s=10.0, model_vars=None, use_cvc5=True, seed=0):
+def discharge(hyp, goal, timeout_s=10.0, model_vars=None, use_cvc5=True, seed=0, cvc5_first=False):
     """Returns dict(status=discharged|violated|unknown|skipped, backend, time_s, model)."""
     t0 = time.time()
     timeout_s = timeout_s * float(os.environ.get("VERIF_TIMEOUT_SCALE", "1"))
@@ -141,6 +141,16 @@ def discharge(hyp, goal, timeout_s=10.0, model_vars=None, use_cvc5=True, seed=0)
         return dict(status="skipped", backend="", model=None, time_s=0.0)
     if UNKNOWN_BUDGET["left"] <= 0:
         return dict(status="unknown", backend="", model=None, time_s=0.0, reason="not attempted: the case already has undecided obligations")
+    if cvc5_first:
+        # nonlinear integer lemmas that cvc5 (QF_NIA) decides in seconds while z3 wanders: ask cvc5 before spending z3's budgets
+        s0 = z3.Solver()
+        s0.add(hyp)
+        s0.add(z3.Not(goal))
+        try:
+            if _cvc5(s0.to_smt2().replace("(set-info :status unknown)", ""), timeout_s) == "unsat":
+                return dict(status="discharged", backend="cvc5-1.0.3 (QF_NIA)", model=None, time_s=time.time() - t0)
+        except Exception:  # pragma: no cover
+            pass
     # Step 1: the query as it is (a short budget first when it contains functions of whole arrays: such queries either close
     # in milliseconds or make the solver's model construction wander).
     from .sym import _abstract_array_predicates
